@@ -13,6 +13,11 @@ working tree and writes coq/C15/gen/Facts.v:
       RReadLen (buf >> sz) | RResize (rh.resize(sz)) | RReserve | RClear | RFillLoop (for (i < sz) buf >> rh[i]) |
       RAppendLoop (for (i < sz) { T x; buf >> x; rh.push_back(x); }) | RReadBytes (buf.read(rh.data(), sz)) | RReturn
   gen_end : bx, gen_available / gen_capacity : sx      BufferReader::end, FixedBufferWriter::available/capacity
+  gen_fav_init / gen_fav_ptr / gen_fixedarray_shared_storage
+      FixedArrayView's constructor (the type getWrittenView returns): how its member `data` is initialised
+      (FShareCopy = make_shared<FixedArray<T>>(*_data), FShareSame = the shared_ptr itself, FNone = not at all), where the
+      pointer given to setPtr comes from, and that FixedArray keeps its bytes in a shared_ptr (copies share the allocation)
+  gen_wview_from_buffer / gen_wview_off / gen_wview_size   getWrittenView() = make_shared<View>(buffer, off, size)
   gen_prefix : list (N * Z)        byte width of the length variable streamed first by
       1 vector<<  2 vector>>  3 AbstractArray<<  4 string<<  5 const char*<<  6 string>>
   gen_guard : bool                 the generic operator<< carries enable_if<!is_abstract_array<T>>
@@ -427,6 +432,103 @@ def read_shape(fn):
     return out
 
 
+def dump_filter(work, repo, filt, tag):
+    src = os.path.join(work, "c15_inst.cpp")
+    out = os.path.join(work, "ast_%s.json" % tag)
+    inc = os.path.join(os.path.dirname(os.path.dirname(HERE)), "build", "include")
+    cmd = ["clang++", "-std=c++11", "-I" + repo, "-I" + inc, "-fsyntax-only", "-Xclang", "-ast-dump=json",
+           "-Xclang", "-ast-dump-filter=" + filt, src]
+    with open(out, "w") as f:
+        p = subprocess.run(cmd, stdout=f, stderr=subprocess.PIPE, timeout=180, universal_newlines=True)
+    if p.returncode != 0:
+        raise RuntimeError("clang failed: " + p.stderr[-2000:])
+    return load_docs(out)
+
+
+def view_ownership(docs):
+    """FixedArrayView<uint8_t>(shared_ptr<FixedArray>& _data, offset, size):
+       -> (init, ptr, storage)  init: FShareCopy | FShareSame | FNone | FUnknown   (how member `data` is initialised)
+                                ptr:  PMember | PParam | PUnknown                   (base of the pointer given to setPtr)
+                                storage: FixedArray keeps its bytes in a shared_ptr<T> and has no user-provided copy constructor"""
+    ctor = None
+    field_ok = False
+    storage = False
+    for d in docs:
+        for n, ps in walk(d):
+            k = n.get("kind")
+            spec = [p for p in ps if p.get("kind") == "ClassTemplateSpecializationDecl"]
+            if k == "CXXConstructorDecl" and spec and spec[-1].get("name") == "FixedArrayView" and \
+                    "unsigned char" in n.get("type", {}).get("qualType", "") and len(params(n)) == 3 and \
+                    any(c.get("kind") == "CompoundStmt" for c in inner(n)):
+                ctor = n
+            if k == "FieldDecl" and spec and spec[-1].get("name") == "FixedArrayView" and n.get("name") == "data":
+                t = n.get("type", {}).get("qualType", "")
+                if t.replace(" ", "").startswith("std::shared_ptr<FixedArray<"):
+                    field_ok = True
+            if k == "ClassTemplateSpecializationDecl" and n.get("name") == "FixedArray":
+                arr = [c for c in inner(n) if c.get("kind") == "FieldDecl" and c.get("name") == "array"]
+                user_copy = [c for c in inner(n) if c.get("kind") == "CXXConstructorDecl" and not c.get("isImplicit") and
+                             "const FixedArray<" in c.get("type", {}).get("qualType", "") and len(params(c)) == 1]
+                if arr and arr[0].get("type", {}).get("qualType", "").replace(" ", "").startswith("std::shared_ptr<") and not user_copy \
+                        and "unsigned char" in str([a for a in inner(n) if a.get("kind") == "TemplateArgument"]):
+                    storage = True
+    if ctor is None:
+        return "FUnknown", "PUnknown", storage
+    ps = params(ctor)
+    pdata, poff, psize = ps[0]["id"], ps[1]["id"], ps[2]["id"]
+    init = "FNone"
+    for c in inner(ctor):
+        if c.get("kind") == "CXXCtorInitializer" and (c.get("anyInit") or {}).get("name") == "data":
+            e = inner(c)[0] if inner(c) else {}
+            refs = [m for m, _ in walk(e) if m.get("kind") == "DeclRefExpr" and refid(m)[0] == pdata]
+            mk = [m for m, _ in walk(e) if m.get("kind") == "CallExpr" and is_call_to(m, "make_shared")]
+            if refs and mk:
+                # make_shared<FixedArray<T>>(*_data): exactly one argument, the dereferenced parameter
+                args = inner(mk[0])[1:]
+                a = strip(args[0]) if len(args) == 1 else {}
+                deref = a.get("kind") == "CXXOperatorCallExpr" and refid(strip(inner(a)[0]))[2] == "operator*"
+                init = "FShareCopy" if deref else "FUnknown"
+            elif refs:
+                init = "FShareSame" if len([m for m, _ in walk(e) if m.get("kind") == "DeclRefExpr"]) == 1 else "FUnknown"
+            else:
+                init = "FNone"
+    if not field_ok:
+        init = "FUnknown"
+    ptr = "PUnknown"
+    ss = inner(body_of(ctor))
+    if len(ss) == 1:
+        call = strip(ss[0])
+        if call.get("kind") == "CXXMemberCallExpr" and inner(call)[0].get("name") == "setPtr" and len(inner(call)) == 3:
+            p, n = strip(inner(call)[1]), strip(inner(call)[2])
+            if p.get("kind") == "BinaryOperator" and p.get("opcode") == "+" and refid(strip(inner(p)[1]))[0] == poff and \
+                    n.get("kind") == "DeclRefExpr" and refid(n)[0] == psize:
+                base = strip(inner(p)[0])
+                if base.get("kind") == "CXXMemberCallExpr" and inner(base)[0].get("name") == "begin":
+                    if any(m.get("kind") == "MemberExpr" and m.get("name") == "data" for m, _ in walk(base)):
+                        ptr = "PMember"
+                    elif any(m.get("kind") == "DeclRefExpr" and refid(m)[0] == pdata for m, _ in walk(base)):
+                        ptr = "PParam"
+    return init, ptr, storage
+
+
+def written_view(docs):
+    """getWrittenView(): return make_shared<View>(buffer, off, size) -> (source is the member buffer, off, size)"""
+    m = method(docs, "FixedBufferWriter", "getWrittenView")
+    if m is None:
+        return False, "XUnknown", "XUnknown"
+    ss = inner(body_of(m))
+    if len(ss) != 1 or ss[0].get("kind") != "ReturnStmt":
+        return False, "XUnknown", "XUnknown"
+    calls = [c for c, _ in walk(ss[0]) if c.get("kind") == "CallExpr" and is_call_to(c, "make_shared")]
+    if len(calls) != 1 or len(inner(calls[0])) != 4:
+        return False, "XUnknown", "XUnknown"
+    a = inner(calls[0])[1:]
+    b = strip(a[0])
+    src = b.get("kind") == "MemberExpr" and b.get("name") == "buffer" and strip(inner(b)[0]).get("kind") == "CXXThisExpr"
+    env = Env(set())
+    return src, sx(a[1], env), sx(a[2], env)
+
+
 def functions(docs, name):
     for d in docs:
         for n, ps in walk(d):
@@ -508,6 +610,18 @@ def main(argv):
     text.append("Definition gen_available : sx := %s." % gen_avail)
     text.append("Definition gen_capacity : sx := %s." % gen_cap)
     text.append("Definition gen_prefix : list (N * Z) := [%s]." % "; ".join("(%d%%N, %d)" % p for p in prefix))
+    try:
+        fdocs = dump_filter(work, repo, "FixedArray", "fixedarray")
+        init, ptr, storage = view_ownership(fdocs)
+    except Exception:
+        init, ptr, storage = "FUnknown", "PUnknown", False
+    wsrc, woff, wsize = written_view(docs)
+    text.append("Definition gen_fav_init : fav_init := %s." % init)
+    text.append("Definition gen_fav_ptr : fav_ptr := %s." % ptr)
+    text.append("Definition gen_fixedarray_shared_storage : bool := %s." % ("true" if storage else "false"))
+    text.append("Definition gen_wview_from_buffer : bool := %s." % ("true" if wsrc else "false"))
+    text.append("Definition gen_wview_off : sx := %s." % woff)
+    text.append("Definition gen_wview_size : sx := %s." % wsize)
     text.append("Definition gen_guard : bool := %s." % ("true" if guard else "false"))
     text.append("Definition gen_overload : list (N * bool) := [%s]." %
                 "; ".join("(%d%%N, %s)" % (k, "true" if overload.get(k) else "false") for k in (1, 2, 3, 4)))
@@ -528,6 +642,9 @@ def unknown_text():
             "Definition gen_fwrite : list stmt := [SUnknown].\nDefinition gen_freserve : list stmt := [SUnknown].\n"
             "Definition gen_vec_read : list rstmt := [RUnknown].\nDefinition gen_str_read : list rstmt := [RUnknown].\n"
             "Definition gen_end : bx := BUnknown.\nDefinition gen_available : sx := XUnknown.\nDefinition gen_capacity : sx := XUnknown.\n"
+            "Definition gen_fav_init : fav_init := FUnknown.\nDefinition gen_fav_ptr : fav_ptr := PUnknown.\n"
+            "Definition gen_fixedarray_shared_storage : bool := false.\nDefinition gen_wview_from_buffer : bool := false.\n"
+            "Definition gen_wview_off : sx := XUnknown.\nDefinition gen_wview_size : sx := XUnknown.\n"
             "Definition gen_prefix : list (N * Z) := [].\nDefinition gen_guard : bool := false.\nDefinition gen_overload : list (N * bool) := [].\n")
 
 
